@@ -17,18 +17,24 @@ const OP_RESET_SOME_NONE: u64 = 2;
 const OP_RESET_SOME_SIZE: u64 = 3;
 /// decompress stream (arg & 0xFF) with the source failing at refill (arg >> 8)
 const OP_DECOMP_SRC_FAULT: u64 = 4;
+/// (arg >> 8) times: reset (re-specifying the size stream (arg & 0xFF) needs), decompress it
+const OP_CYCLE: u64 = 5;
 
-fn gen(t: &mut Tape, _tier: Tier) -> Scenario {
+fn gen(t: &mut Tape, tier: Tier) -> Scenario {
     let mut sc = Scenario::new("c14");
     let lzma2 = t.below(3) == 0;
     sc.set_i("lzma2", lzma2 as u64);
-    let nstreams = t.range(1, 4) as usize;
+    // many reuse cycles: A, then k x (reset, B), reset, A - anything that survives a
+    // reset and only shows after a particular number of cycles
+    let many = t.below(24) == 0;
+    let nstreams = if many { 2 } else { t.range(1, 4) as usize };
     let mut sizes = Vec::new();
+    let mut markers = Vec::new();
     let mut notes = Vec::new();
     if lzma2 {
         for i in 0..nstreams {
             let strict = t.below(5) != 0;
-            let b = gen_lzma2(t, 1500, strict);
+            let b = gen_lzma2(t, if many { 200 } else { 1500 }, strict);
             let mut bytes = b.bytes;
             let m = if t.below(3) == 0 { mutate(t, &mut bytes) } else { "none" };
             notes.push(format!("s{}: {}[{}]", i, b.note, m));
@@ -36,16 +42,25 @@ fn gen(t: &mut Tape, _tier: Tier) -> Scenario {
             sc.set_b(&format!("s{}", i), bytes);
         }
     } else {
-        let props = gen::draw_props(t, false);
+        let mut props = gen::draw_props(t, false);
+        if many {
+            // the tables are refilled on every cycle: keep them small
+            props.lc = props.lc.min(3);
+            props.lp = props.lp.min(1);
+        }
         let dict = [1u64, 3, 16, 64, 4096, 1 << 16][t.below(6) as usize];
         sc.set_i("raw_lc", props.lc as u64);
         sc.set_i("raw_lp", props.lp as u64);
         sc.set_i("raw_pb", props.pb as u64);
         sc.set_i("raw_dict", dict);
-        let cfg = gen::draw_cfg(t);
+        let mut cfg = gen::draw_cfg(t);
         for i in 0..nstreams {
             let mut enc = RefEnc::new(props, dict);
-            let target = match t.below(3) {
+            if many {
+                // different streams touch different parts of the model
+                cfg = gen::draw_cfg(t);
+            }
+            let target = match if many { 2 } else { t.below(3) } {
                 0 => t.range(0, 20),
                 1 => dict.min(3000) * t.range(1, 3) + t.below(50),
                 _ => t.range(1, 600),
@@ -56,7 +71,8 @@ fn gen(t: &mut Tape, _tier: Tier) -> Scenario {
                 enc.encode_end_marker();
             }
             let mut bytes = enc.finish_segment();
-            let m = if t.below(3) == 0 { mutate(t, &mut bytes) } else { "none" };
+            let m = if !many && t.below(3) == 0 { mutate(t, &mut bytes) } else { "none" };
+            markers.push(marker as u64);
             notes.push(format!("s{}: out={} marker={} [{}]", i, enc.model.out.len(), marker, m));
             sizes.push(enc.model.out.len() as u64);
             sc.set_b(&format!("s{}", i), bytes);
@@ -69,7 +85,33 @@ fn gen(t: &mut Tape, _tier: Tier) -> Scenario {
         }
     }
     sc.set_i("nstreams", nstreams as u64);
+    sc.set_l("sizes", sizes.clone());
+    sc.set_l("markers", markers);
     let mut ops = Vec::new();
+    if many {
+        let k = match t.below(8) {
+            0 | 1 => 255,
+            2 => 256,
+            3 => 254 + t.below(5),
+            4 => [127u64, 128, 129, 511, 512, 513][t.below(6) as usize],
+            5 => t.range(2, 300),
+            6 => {
+                if tier == Tier::Thorough {
+                    [65535u64, 65536, 65537][t.below(3) as usize]
+                } else {
+                    [1023u64, 1024, 1025][t.below(3) as usize]
+                }
+            }
+            _ => t.range(250, 260),
+        };
+        ops.extend_from_slice(&[OP_CYCLE, (1 << 8) | 0, OP_CYCLE, (k << 8) | 1, OP_CYCLE, (1 << 8) | 0]);
+        if t.below(2) == 0 {
+            ops.extend_from_slice(&[OP_CYCLE, (k << 8) | 0, OP_CYCLE, (1 << 8) | 1]);
+        }
+        sc.note = format!("{}; many cycles k={}; {}", if lzma2 { "Lzma2Decoder" } else { "LzmaDecoder" }, k, notes.join("; "));
+        sc.set_l("ops", ops);
+        return sc;
+    }
     for _ in 0..t.range(2, 10) {
         let r = t.below(10);
         if r < 4 {
@@ -122,6 +164,23 @@ fn exec(sc: &Scenario, ctx: &mut Ctx) -> Vec<Violation> {
         )
     };
     let mut cur_size: Option<u64> = sc.opt_i("init_size");
+    // OP_CYCLE expands to k x (reset re-specifying what the stream needs, decompress)
+    let mut prim: Vec<[u64; 2]> = Vec::new();
+    let mut cycles = 0u64;
+    for p in ops.chunks(2) {
+        if p[0] == OP_CYCLE {
+            let i = (p[1] & 0xFF) as usize;
+            let marker = sc.l("markers").get(i).copied().unwrap_or(0) == 1;
+            let size = sc.l("sizes").get(i).copied().unwrap_or(0);
+            for _ in 0..(p[1] >> 8) {
+                prim.push(if marker { [OP_RESET_SOME_NONE, 0] } else { [OP_RESET_SOME_SIZE, size] });
+                prim.push([OP_DECOMP, i as u64]);
+                cycles += 1;
+            }
+        } else {
+            prim.push([p[0], p[1]]);
+        }
+    }
     let mut result: Vec<Violation> = Vec::new();
     let mut compared = 0u64;
     let mut dirty_compared = 0u64;
@@ -131,7 +190,7 @@ fn exec(sc: &Scenario, ctx: &mut Ctx) -> Vec<Violation> {
         let mut d2 = if lzma2 { Some(Lzma2Decoder::new()) } else { None };
         let mut just_reset = false;
         let mut dirty = false; // something failed half-way since construction
-        for p in ops.chunks(2) {
+        for p in prim.iter() {
             match p[0] {
                 OP_DECOMP => {
                     let data = streams[(p[1] as usize).min(streams.len() - 1)];
@@ -233,12 +292,19 @@ fn exec(sc: &Scenario, ctx: &mut Ctx) -> Vec<Violation> {
     ctx.stats.add("probe.reset_then_decompress_compared_with_fresh_decoder", compared);
     ctx.stats.add("probe.compared_after_a_decode_failed_half_way", dirty_compared);
     ctx.stats.add("fault.fired.source_error_in_the_middle_of_a_decode", io_dirty);
+    if cycles > 2 {
+        ctx.stats.hit("arm.many_reuse_cycles");
+        ctx.stats.max("max_reuse_cycles_of_one_decoder", cycles);
+    }
+    if cycles >= 256 {
+        ctx.stats.hit("probe.256_or_more_reuse_cycles");
+    }
     if lzma2 {
         ctx.stats.hit("arm.lzma2_decoder");
     } else {
         ctx.stats.hit("arm.lzma_decoder");
     }
-    ctx.stats.eval(sc.hash(), compared > 0, ops.len() as u64 / 2);
+    ctx.stats.eval(sc.hash(), compared > 0, prim.len() as u64);
     if let Err(p) = r {
         return vec![Violation::new("panic", &panic_locus(&p), p, sc)];
     }
@@ -248,7 +314,7 @@ fn exec(sc: &Scenario, ctx: &mut Ctx) -> Vec<Violation> {
 pub static C14: SimpleProp = SimpleProp {
     id: "C14",
     level: "exploration",
-    rule: "one evaluation = one history of 4-12 operations {decompress stream i (valid, bit-flipped, truncated, spliced, or cut short by an injected source error after k one-byte refills), reset(None), reset(Some(None)), reset(Some(Some(n)))} on a single raw::LzmaDecoder (any lc/lp/pb, dictionary 1..65536) or raw::Lzma2Decoder (streams with changing properties); after every reset the next decompress is compared (verdict, bytes, consumed count) with a freshly constructed decoder with the same parameters and the size last specified; non-trivial = at least one such comparison; distinct by scenario hash",
+    rule: "one evaluation = one history of 4-12 operations (or, 1 run in 24, of A, k x (reset, B), reset, A with k up to 1025 - 65537 in the thorough tier - reuse cycles) {decompress stream i (valid, bit-flipped, truncated, spliced, or cut short by an injected source error after k one-byte refills), reset(None), reset(Some(None)), reset(Some(Some(n)))} on a single raw::LzmaDecoder (any lc/lp/pb, dictionary 1..65536) or raw::Lzma2Decoder (streams with changing properties); after every reset the next decompress is compared (verdict, bytes, consumed count) with a freshly constructed decoder with the same parameters and the size last specified; non-trivial = at least one such comparison; distinct by scenario hash",
     runs_quick: 60_000,
     runs_thorough: 24_000_000,
     both_profiles: false,
